@@ -66,3 +66,8 @@ check("C17", "literal precedence tables + pairing rule (loop test vs recursion b
       "Tree mirroring of json.loads, prefix rejection on concrete documents and evaluated values are run-time results and are NOT decided.", "§4 C17")
 for _p in ("C12", "C17"):
     NOT_APPLICABLE.pop(_p, None)
+
+check("C09", "component-coverage set comparison; pairing rules on the snapshot lists; symbolic conservation-law check (inductive invariant len(popped) == sum(item_count - remained_count)) on every path of every Stack method; who-may-write enumeration",
+      "Static: checkpoint/ok/restore apply the matching operation to all four components; snapshot/restore/drop pairing on Stack and SnapshottingInt; on all 17 symbolic paths of the Stack methods the change of len(popped) equals the change of the snapshots' popped counts (this rule reports both defects of the original drop_snapshot/clear and is silent on the repaired code); nothing outside the owners touches items/popped/lengths/_checkpoints/_pos_history or calls the snapshot methods.",
+      "NOT decided: that the delta encoding reproduces the snapshot contents for every history (needs induction over unbounded histories: model checking / proof). The conservation law is a necessary inductive invariant of it, not the whole equivalence.", "§4 C09")
+NOT_APPLICABLE.pop("C09", None)
